@@ -24,15 +24,15 @@ def _alarm(signum, frame):
 
 
 def guarded(fn, seconds=20):
-    """run fn() under a wall-clock guard (the encoder's relaxation loop is the only loop whose
+    """run fn() under a CPU-time guard (the encoder's relaxation loop is the only loop whose
     termination is in question)"""
-    old = signal.signal(signal.SIGALRM, _alarm)
-    signal.setitimer(signal.ITIMER_REAL, seconds)
+    old = signal.signal(signal.SIGVTALRM, _alarm)
+    signal.setitimer(signal.ITIMER_VIRTUAL, seconds)
     try:
         return fn()
     finally:
-        signal.setitimer(signal.ITIMER_REAL, 0)
-        signal.signal(signal.SIGALRM, old)
+        signal.setitimer(signal.ITIMER_VIRTUAL, 0)
+        signal.signal(signal.SIGVTALRM, old)
 
 
 class PyEq(object):
